@@ -8,11 +8,13 @@ LEAN_TARGETS = ["FalconProofs.Props.C14", "fvd_c14"]
 PROPS_MODULE = "FalconProofs.Props.C14"
 LEVEL = "translation_validation"
 DRIVER_TAKES_ANSWER = True
-RULE = ("request = one IL function f (FIL): 8 hand-written shapes (use reading two scalars, use by a store, "
-        "intrinsics with declared/undeclared effects, dead load, unreachable block, guard-only use) plus random "
+RULE = ("request = one IL function f (FIL): 9 hand-written shapes (use reading two scalars, use by a store, "
+        "intrinsics with declared/undeclared effects, dead load, unreachable block, guard-only use, one name at two widths) plus random "
         "functions from harness/src/genil.rs in six configurations (default; dense = 4 names, blocks of up to 8 "
         "instructions; straight-line; with indirect branches; intrinsic-heavy; arbitrary non-partitioning guards), "
-        "1-8 blocks, loops, self-loops, empty and unreachable blocks, loads/stores. falcon's "
+        "1-8 blocks, loops, self-loops, empty and unreachable blocks, loads/stores; plus functions lifted by falcon's amd64 "
+        "translator from random sequences of 27 real instruction encodings with conditional jumps and loops "
+        "(flag computations, push/pop, syscall/cpuid/rdtsc intrinsics). falcon's "
         "analysis::dead_code_elimination(f) = g is judged by the Lean checker dceCheck f g (proved sound in "
         "Props/C14.lean); f and g are also executed side by side by falcon's executor (harness) and, when the "
         "checker rejects, by the Lean executor model from 24 initial states. distinct = distinct request line; "
@@ -54,6 +56,8 @@ def signature(c):
     v = c.model
     if v.startswith("invalid "):
         why = v[len("invalid "):].split(" ; ")[0].strip()
+        if c.cls.endswith("/alias-width"):
+            return f"{ID}/alias-width/{why}"      # the hand-written case with one name at two widths
         return f"{ID}/{why}"
     if v.startswith("valid") and "x=diff" in c.impl:
         return f"{ID}/executor-disagrees-with-checker"
